@@ -13,7 +13,11 @@ _listdir = os.listdir
 
 def listdir(path="."):
     names = _listdir(path)
-    key = {n: i for i, n in enumerate(order)}
+    # `order` holds workspace-relative paths; entries of sub-directories are ordered by the first listed path below them
+    key = {}
+    for i, n in enumerate(order):
+        for part in n.split("/"):
+            key.setdefault(part, i)
     return sorted(names, key=lambda n: key.get(n, len(order)))
 
 
@@ -22,7 +26,7 @@ from harness import impl  # noqa: E402
 from harness.props import c10  # noqa: E402
 
 root = spec["root"]
-names = sorted(spec["files"])
+names = sorted(n for n in spec["files"] if not n.endswith(".h"))
 if spec["mode"] == "init":
     srv, conn = impl.make_server(root, extra=["--nthreads", str(spec["nthreads"]), *spec.get("extra", [])])
 else:
